@@ -62,9 +62,9 @@ pub const CASE_TEXTS: [&str; 7] = ["No", "NO", "Not-Needed", "Yes", "Commit:ABC"
 pub const SIZES: [usize; 4] = [0, 1, 42, usize::MAX];
 
 /// Repository locations for the VCS rows (whitespace-free).
-const URLS: [&str; 4] = ["https://example.com/r.git", "git@host:a/b", "a", "é"];
-const BRANCHES: [Option<&str>; 3] = [None, Some("main"), Some("debian/sid")];
-const SUBPATHS: [Option<&str>; 3] = [None, Some("sub"), Some("a/b")];
+const URLS: [&str; 6] = ["https://example.com/r.git", "git@host:a/b", "a", "é", "https://Salsa.Debian.org/Foo/Bar.git", "https://example.com/r/?q=1"];
+const BRANCHES: [Option<&str>; 4] = [None, Some("main"), Some("debian/sid"), Some("Debian/Sid")];
+const SUBPATHS: [Option<&str>; 4] = [None, Some("sub"), Some("a/b"), Some("Sub/Dir")];
 
 fn priorities() -> Vec<debian_control::fields::Priority> {
     use debian_control::fields::Priority;
@@ -295,6 +295,8 @@ pub fn rows() -> Vec<TypeRow> {
         |s| through_spec("apt_sources::Repository", "Types", s)));
     v.push(embed_row!("apt_sources::Repository By-Hash field", keywords = ["yes", "no", "force"], case_insensitive = false, filter = one_token,
         |s| through_spec("apt_sources::Repository", "By-Hash", s)));
+    v.push(embed_row!("changes::Changes Urgency field", keywords = ["low", "medium", "high", "emergency", "critical"], case_insensitive = true, filter = one_token,
+        |s| debian_control::changes::Changes::read(format!("Format: 1.8\nUrgency: {}\n", s).as_bytes()).map_err(|e| e.to_string())?.urgency().map(|u| u.to_string()).ok_or_else(|| "no urgency".to_string())));
     v.push(embed_row!("lossy::relations::Relation operator", keywords = ["<<", "<=", "=", ">=", ">>"], case_insensitive = false, filter = operator_chars,
         |s| debian_control::lossy::Relation::from_str(&format!("a ({} 1)", s)).map(|r| r.version.map(|(c, _)| c.to_string()).unwrap_or_default())));
     v.push(embed_row!("lossless::relations::Relation operator", keywords = ["<<", "<=", "=", ">=", ">>"], case_insensitive = false, filter = operator_chars,
